@@ -171,3 +171,594 @@ Proof.
   destruct (dec_nonneg_shape n Hn) as (l & Hl0 & Hl & E & Hv). rewrite E.
   rewrite parse_digits_digits by auto. now rewrite Hv.
 Qed.
+
+(* ------------------------------------------------------------------ parse_host_and_port on the documented spellings *)
+Lemma break_at_skip : forall c a t, forall_s (fun d => negb (Ascii.eqb d c)) a = true ->
+  break_at c (a ++ String c t)%string = (a, String c t).
+Proof.
+  induction a; intros t H; cbn in *; [now rewrite Ascii.eqb_refl|].
+  apply andb_true_iff in H as [H1 H2]. apply negb_true_iff in H1. rewrite H1, IHa by assumption. reflexivity.
+Qed.
+Lemma chomp1_id : forall t, forall_s (fun d => negb (Ascii.eqb d c_nl)) t = true -> chomp1 t = t.
+Proof.
+  induction t; intros H; cbn in *; [reflexivity|].
+  apply andb_true_iff in H as [H1 H2]. apply negb_true_iff in H1. rewrite H1, IHt by assumption. reflexivity.
+Qed.
+Lemma bracket_none : forall c r, Ascii.eqb c c_lbr = false -> bracket_match (String c r) = None.
+Proof. intros c r H. cbn. now rewrite H. Qed.
+
+Lemma host_char_not : forall c d, host_char c = true -> host_char d = false -> Ascii.eqb c d = false.
+Proof. intros c d H1 H2. apply Ascii.eqb_neq. intros ->. congruence. Qed.
+Lemma host_chars_not : forall s d, forall_s host_char s = true -> host_char d = false ->
+  forall_s (fun c => negb (Ascii.eqb c d)) s = true.
+Proof.
+  intros s d H Hd. eapply forall_s_impl; [|exact H]. intros c Hc. cbn. now rewrite (host_char_not c d).
+Qed.
+Lemma dig_props : forall c, is_dig c = true ->
+  host_char c = true /\ Ascii.eqb c c_colon = false /\ Ascii.eqb c c_nl = false /\ is_space c = false.
+Proof.
+  intros c H. unfold is_dig in H. apply andb_true_iff in H as [H1 H2]. apply Nat.leb_le in H1, H2.
+  assert (Hs : is_space c = false).
+  { unfold is_space. destruct (Nat.leb_spec 9 (nat_of_ascii c)), (Nat.leb_spec (nat_of_ascii c) 13),
+      (Nat.leb_spec 28 (nat_of_ascii c)), (Nat.leb_spec (nat_of_ascii c) 32); cbn; try reflexivity; lia. }
+  assert (Hne : forall d, (nat_of_ascii d < 48 \/ 57 < nat_of_ascii d)%nat -> Ascii.eqb c d = false).
+  { intros d Hd. apply Ascii.eqb_neq. intros ->. lia. }
+  repeat split; try assumption.
+  - unfold host_char. rewrite Hs. cbn. rewrite (Hne c_lbr), (Hne c_rbr) by (cbn; lia). reflexivity.
+  - apply Hne. cbn. lia.
+  - apply Hne. cbn. lia.
+Qed.
+Lemma digs_no : forall s (q : ascii -> bool), (forall c, is_dig c = true -> q c = true) -> forall_s is_dig s = true -> forall_s q s = true.
+Proof. intros. eapply forall_s_impl; eauto. Qed.
+Lemma digs_no_colon : forall s, forall_s is_dig s = true -> forall_s (fun c => negb (Ascii.eqb c c_colon)) s = true.
+Proof. intros s. apply digs_no. intros c H. destruct (dig_props c H) as (_ & -> & _). reflexivity. Qed.
+Lemma digs_no_nl : forall s, forall_s is_dig s = true -> forall_s (fun c => negb (Ascii.eqb c c_nl)) s = true.
+Proof. intros s. apply digs_no. intros c H. destruct (dig_props c H) as (_ & _ & -> & _). reflexivity. Qed.
+Lemma digs_host : forall s, forall_s is_dig s = true -> forall_s host_char s = true.
+Proof. intros s. apply digs_no. intros c H. now destruct (dig_props c H). Qed.
+
+Lemma name_ok_parts : forall h, name_ok h = true ->
+  exists c r, h = String c r /\ host_char c = true /\ forall_s host_char h = true
+              /\ forall_s (fun d => negb (Ascii.eqb d c_colon)) h = true.
+Proof.
+  intros h H. unfold name_ok in H. apply andb_true_iff in H as [H H3]. apply andb_true_iff in H as [H1 H2].
+  destruct h as [|c r]; [discriminate|]. exists c, r. repeat split; try assumption.
+  - cbn in H2. now apply andb_true_iff in H2 as [? _].
+  - apply count_zero_forall. now apply Nat.eqb_eq in H3.
+Qed.
+Lemma host_first_not_lbr : forall c, host_char c = true -> Ascii.eqb c c_lbr = false.
+Proof. intros c H. apply host_char_not; [assumption | reflexivity]. Qed.
+
+Lemma v6_ok_parts : forall a, v6_ok a = true ->
+  exists c r, a = String c r /\ host_char c = true /\ forall_s host_char a = true /\ (2 <= count_c c_colon a)%nat.
+Proof.
+  intros a H. unfold v6_ok in H. apply andb_true_iff in H as [H1 H2]. apply Nat.leb_le in H2.
+  destruct a as [|c r]; [cbn in H2; lia|]. exists c, r. repeat split; try assumption.
+  cbn in H1. now apply andb_true_iff in H1 as [? _].
+Qed.
+
+Lemma parse_plain : forall s d c r, s = String c r -> Ascii.eqb c c_lbr = false -> count_c c_colon s <> 1%nat ->
+  parse_host_and_port s d = Ok (s, d).
+Proof.
+  intros s d c r -> Hc Hn. unfold parse_host_and_port. rewrite bracket_none by assumption.
+  pose proof (split_on_length c_colon (String c r)) as HL.
+  destruct (split_on c_colon (String c r)) as [|x [|y [|z t]]]; try reflexivity.
+  cbn [List.length] in HL. exfalso. apply Hn. lia.
+Qed.
+
+Lemma parse_host_port : forall h p d, name_ok h = true -> 0 <= p ->
+  parse_host_and_port (h ++ ":" ++ dec p)%string d = Ok (h, p).
+Proof.
+  intros h p d Hh Hp. destruct (name_ok_parts h Hh) as (c & r & -> & Hc & _ & Hnc).
+  destruct (dec_digits p Hp) as [Hd Hne].
+  unfold parse_host_and_port. change ((String c r ++ ":" ++ dec p)%string) with (String c (r ++ ":" ++ dec p)%string).
+  rewrite bracket_none by now apply host_first_not_lbr.
+  change (String c (r ++ ":" ++ dec p)%string) with ((String c r ++ String c_colon (dec p))%string).
+  rewrite split_on_one by (try assumption; now apply digs_no_colon).
+  rewrite Hne. rewrite int_of_string_dec by assumption. reflexivity.
+Qed.
+
+Lemma parse_bracket : forall a d, v6_ok a = true -> parse_host_and_port ("[" ++ a ++ "]")%string d = Ok (a, d).
+Proof.
+  intros a d Ha. destruct (v6_ok_parts a Ha) as (c & r & E & Hc & Hall & _).
+  unfold parse_host_and_port, bracket_match.
+  change (("[" ++ a ++ "]")%string) with (String c_lbr (a ++ String c_rbr "")%string).
+  cbv beta iota. rewrite Ascii.eqb_refl. rewrite break_at_skip by (apply host_chars_not; [assumption | reflexivity]).
+  rewrite E. cbn. reflexivity.
+Qed.
+
+Lemma parse_bracket_port : forall a p d, v6_ok a = true -> 0 <= p ->
+  parse_host_and_port ("[" ++ a ++ "]:" ++ dec p)%string d = Ok (a, p).
+Proof.
+  intros a p d Ha Hp. destruct (v6_ok_parts a Ha) as (c & r & E & Hc & Hall & _).
+  destruct (dec_digits p Hp) as [Hd Hne].
+  unfold parse_host_and_port, bracket_match.
+  change (("[" ++ a ++ "]:" ++ dec p)%string) with (String c_lbr (a ++ String c_rbr (String c_colon (dec p)))%string).
+  cbv beta iota. rewrite Ascii.eqb_refl. rewrite break_at_skip by (apply host_chars_not; [assumption | reflexivity]).
+  assert (Hemp : is_empty a = false) by (rewrite E; reflexivity). rewrite Hemp.
+  rewrite chomp1_id by (cbn; now apply digs_no_nl).
+  rewrite Ascii.eqb_refl, Hne, Hd. cbn [negb andb bind].
+  rewrite int_of_string_dec by assumption. reflexivity.
+Qed.
+
+Lemma forms_parse : forall f d, form_ok f = true -> parse_host_and_port (spell f) d = Ok (endpoint f d).
+Proof.
+  intros [h | h p | a | a | a p] d H; cbn [form_ok spell endpoint form_host form_port] in *.
+  - destruct (name_ok_parts h H) as (c & r & E & Hc & _ & Hnc).
+    eapply parse_plain; [exact E | now apply host_first_not_lbr |].
+    unfold name_ok in H. apply andb_true_iff in H as [_ H]. apply Nat.eqb_eq in H. lia.
+  - apply andb_true_iff in H as [H1 H2]. apply parse_host_port; [assumption | lia].
+  - destruct (v6_ok_parts a H) as (c & r & E & Hc & _ & Hn).
+    eapply parse_plain; [exact E | now apply host_first_not_lbr | lia].
+  - now apply parse_bracket.
+  - apply andb_true_iff in H as [H1 H2]. apply parse_bracket_port; [assumption | lia].
+Qed.
+
+(* ------------------------------------------------------------------ command line, single target *)
+Lemma form_host_nonempty : forall f, form_ok f = true -> is_empty (form_host f) = false.
+Proof.
+  intros [h | h p | a | a | a p] H; cbn [form_ok form_host] in *.
+  - destruct (name_ok_parts _ H) as (c & r & -> & _). reflexivity.
+  - apply andb_true_iff in H as [H _]. destruct (name_ok_parts _ H) as (c & r & -> & _). reflexivity.
+  - destruct (v6_ok_parts _ H) as (c & r & -> & _). reflexivity.
+  - destruct (v6_ok_parts _ H) as (c & r & -> & _). reflexivity.
+  - apply andb_true_iff in H as [H _]. destruct (v6_ok_parts _ H) as (c & r & -> & _). reflexivity.
+Qed.
+Lemma spell_nonempty : forall f, form_ok f = true -> is_empty (spell f) = false.
+Proof.
+  intros f H. pose proof (form_host_nonempty f H) as Hh.
+  destruct f; cbn [spell form_host] in *; try assumption; try reflexivity.
+  rewrite is_empty_app, Hh. reflexivity.
+Qed.
+
+Lemma cli_forms_no_port_option : forall f, form_ok f = true -> port_ok (form_port f 22) = true ->
+  cli_single (spell f) None = COk (form_host f) (form_port f 22).
+Proof.
+  intros f H Hp. unfold cli_single. rewrite spell_nonempty, forms_parse by assumption.
+  unfold endpoint. rewrite form_host_nonempty, Hp by assumption. reflexivity.
+Qed.
+
+Lemma cli_port_option_partial : forall f P, form_ok f = true -> form_has_port_or_brackets f = false -> port_ok P = true ->
+  cli_single (spell f) (Some P) = COk (form_host f) P.
+Proof.
+  intros f P H Hk Hp. pose proof (form_host_nonempty f H) as Hh.
+  destruct f; try discriminate; cbn [spell form_host] in *; unfold cli_single; rewrite Hh, Hp; reflexivity.
+Qed.
+
+Lemma cli_port_option_refuted : exists f P, form_ok f = true /\ port_ok P = true /\ port_ok (form_port f P) = true
+  /\ cli_single (spell f) (Some P) <> COk (form_host f) (form_port f P).
+Proof. exists (FHostPort "h" 2222), 22. repeat split; try reflexivity. vm_compute. discriminate. Qed.
+Lemma cli_port_option_bracket_refuted : exists f P, form_ok f = true /\ port_ok P = true
+  /\ cli_single (spell f) (Some P) <> COk (form_host f) (form_port f P).
+Proof. exists (FBr "::1"), 2222. repeat split; try reflexivity. vm_compute. discriminate. Qed.
+
+(* every accepted command line carries a port in 1..65535 *)
+Lemma cli_single_port_ok : forall arg oport h p, cli_single arg oport = COk h p -> port_ok p = true.
+Proof.
+  intros arg oport h p. unfold cli_single. destruct (is_empty arg); [discriminate|].
+  destruct oport as [P|].
+  - destruct (is_empty arg); [discriminate|]. destruct (port_ok P) eqn:E; [|discriminate]. intros [= _ <-]. assumption.
+  - destruct (parse_host_and_port arg 22) as [[h' p']|]; [|discriminate].
+    destruct (is_empty h'); [discriminate|]. destruct (port_ok p') eqn:E; [|discriminate]. intros [= _ <-]. assumption.
+Qed.
+Lemma cli_bad_port_option : forall arg P, port_ok P = false -> cli_single arg (Some P) = CExit.
+Proof. intros arg P H. unfold cli_single. destruct (is_empty arg); [reflexivity|]. rewrite H. reflexivity. Qed.
+Lemma cli_bad_port_named : forall f, form_ok f = true -> port_ok (form_port f 22) = false -> cli_single (spell f) None = CRaise ValueError.
+Proof.
+  intros f H Hp. unfold cli_single. rewrite spell_nonempty, forms_parse by assumption.
+  unfold endpoint. rewrite form_host_nonempty, Hp by assumption. reflexivity.
+Qed.
+
+(* ------------------------------------------------------------------ strip, readlines, targets file *)
+Definition nosp (c : ascii) : bool := negb (is_space c).
+Lemma lstrip_pad : forall pad s, forall_s is_space pad = true -> lstrip (pad ++ s)%string = lstrip s.
+Proof.
+  induction pad; intros s H; cbn in *; [reflexivity|]. apply andb_true_iff in H as [H1 H2]. rewrite H1. auto.
+Qed.
+Lemma lstrip_id : forall c r, is_space c = false -> lstrip (String c r) = String c r.
+Proof. intros c r H. cbn. now rewrite H. Qed.
+Lemma rstrip_spaces : forall pad, forall_s is_space pad = true -> rstrip pad = "".
+Proof.
+  induction pad; intros H; cbn in *; [reflexivity|]. apply andb_true_iff in H as [H1 H2]. rewrite IHpad, H1 by assumption. reflexivity.
+Qed.
+Lemma rstrip_nosp_pad : forall s pad, forall_s nosp s = true -> forall_s is_space pad = true -> rstrip (s ++ pad)%string = s.
+Proof.
+  induction s; intros pad Hs Hp; cbn in *; [now apply rstrip_spaces|].
+  apply andb_true_iff in Hs as [H1 H2]. unfold nosp in H1. apply negb_true_iff in H1.
+  rewrite IHs, H1, andb_false_r by assumption. reflexivity.
+Qed.
+Lemma strip_padded : forall a s b, forall_s is_space a = true -> forall_s is_space b = true ->
+  forall_s nosp s = true -> strip (a ++ s ++ b)%string = s.
+Proof.
+  intros a s b Ha Hb Hs. unfold strip. rewrite lstrip_pad by assumption.
+  destruct s as [|c r].
+  - cbn. destruct b as [|cb rb]; [reflexivity|]. cbn in Hb. apply andb_true_iff in Hb as [H1 H2].
+    assert (E : lstrip (String cb rb) = lstrip rb) by (cbn; now rewrite H1).
+    rewrite E. clear E H1 cb. induction rb as [|x rb IH]; [reflexivity|]. cbn in H2. apply andb_true_iff in H2 as [H1 H2].
+    cbn. rewrite H1. auto.
+  - cbn in Hs. apply andb_true_iff in Hs as [H1 H2]. unfold nosp in H1. apply negb_true_iff in H1.
+    change ((String c r ++ b)%string) with (String c (r ++ b)%string). rewrite lstrip_id by assumption.
+    change (String c (r ++ b)%string) with ((String c r ++ b)%string). apply rstrip_nosp_pad; [|assumption].
+    cbn. unfold nosp at 1. rewrite H1. assumption.
+Qed.
+
+Lemma host_char_nosp : forall c, host_char c = true -> nosp c = true.
+Proof. intros c H. unfold host_char in H. apply andb_true_iff in H as [H _]. now apply andb_true_iff in H as [H _]. Qed.
+Lemma hosts_nosp : forall s, forall_s host_char s = true -> forall_s nosp s = true.
+Proof. intros s. apply forall_s_impl. exact host_char_nosp. Qed.
+Lemma digs_nosp : forall s, forall_s is_dig s = true -> forall_s nosp s = true.
+Proof. intros s. apply digs_no. intros c H. destruct (dig_props c H) as (_ & _ & _ & E). unfold nosp. now rewrite E. Qed.
+
+Lemma spell_nosp : forall f, form_ok f = true -> forall_s nosp (spell f) = true.
+Proof.
+  intros [h | h p | a | a | a p] H; cbn [form_ok spell] in *.
+  - destruct (name_ok_parts _ H) as (_ & _ & _ & _ & Hh & _). now apply hosts_nosp.
+  - apply andb_true_iff in H as [H Hp]. destruct (name_ok_parts _ H) as (_ & _ & _ & _ & Hh & _).
+    destruct (dec_digits p ltac:(lia)) as [Hd _].
+    rewrite forall_s_app, hosts_nosp by assumption. cbn. now apply digs_nosp.
+  - destruct (v6_ok_parts _ H) as (_ & _ & _ & _ & Hh & _). now apply hosts_nosp.
+  - destruct (v6_ok_parts _ H) as (_ & _ & _ & _ & Hh & _). cbn. rewrite forall_s_app, hosts_nosp by assumption. reflexivity.
+  - apply andb_true_iff in H as [H Hp]. destruct (v6_ok_parts _ H) as (_ & _ & _ & _ & Hh & _).
+    destruct (dec_digits p ltac:(lia)) as [Hd _].
+    cbn. rewrite forall_s_app, hosts_nosp by assumption. cbn. now apply digs_nosp.
+Qed.
+
+Lemma lines_line : forall l rest, forall_s (fun c => negb (Ascii.eqb c c_nl)) l = true ->
+  lines (l ++ String c_nl rest)%string = (l ++ String c_nl "")%string :: lines rest.
+Proof.
+  induction l; intros rest H; cbn [append lines].
+  - rewrite Ascii.eqb_refl. reflexivity.
+  - cbn in H. apply andb_true_iff in H as [H1 H2]. apply negb_true_iff in H1. rewrite H1, IHl by assumption. reflexivity.
+Qed.
+Lemma univ_nl_id : forall s, forall_s (fun c => negb (Ascii.eqb c c_cr)) s = true -> univ_nl s = s.
+Proof.
+  induction s; intros H; cbn in *; [reflexivity|]. apply andb_true_iff in H as [H1 H2]. apply negb_true_iff in H1.
+  rewrite H1, IHs by assumption. reflexivity.
+Qed.
+
+Definition item_body (i : item) : string := match i with Blank => "" | Tgt a f b => (a ++ spell f ++ b)%string end.
+Lemma render_item_body : forall i, render_item i = (item_body i ++ String c_nl "")%string.
+Proof. destruct i; cbn; [reflexivity|]. now rewrite !app_assoc_s. Qed.
+
+Lemma pad_props : forall s, forall_s pad_char s = true ->
+  forall_s is_space s = true /\ forall_s (fun c => negb (Ascii.eqb c c_nl)) s = true /\ forall_s (fun c => negb (Ascii.eqb c c_cr)) s = true.
+Proof.
+  intros s H. repeat split; (eapply forall_s_impl; [|exact H]); intros c Hc; unfold pad_char in Hc;
+    apply andb_true_iff in Hc as [Hc H3]; apply andb_true_iff in Hc as [H1 H2]; assumption.
+Qed.
+Lemma nosp_props : forall s, forall_s nosp s = true ->
+  forall_s (fun c => negb (Ascii.eqb c c_nl)) s = true /\ forall_s (fun c => negb (Ascii.eqb c c_cr)) s = true.
+Proof.
+  intros s H. split; (eapply forall_s_impl; [|exact H]); intros c Hc; unfold nosp in Hc; apply negb_true_iff in Hc;
+    apply negb_true_iff; apply Ascii.eqb_neq; intros ->; discriminate.
+Qed.
+
+Lemma item_body_props : forall i, item_ok i = true ->
+  forall_s (fun c => negb (Ascii.eqb c c_nl)) (item_body i) = true /\ forall_s (fun c => negb (Ascii.eqb c c_cr)) (item_body i) = true.
+Proof.
+  intros [|a f b] H; cbn [item_body item_ok] in *; [split; reflexivity|].
+  apply andb_true_iff in H as [H Hf]. apply andb_true_iff in H as [Ha Hb].
+  destruct (pad_props a Ha) as (_ & A1 & A2). destruct (pad_props b Hb) as (_ & B1 & B2).
+  destruct (nosp_props _ (spell_nosp f Hf)) as [S1 S2].
+  rewrite !forall_s_app, A1, A2, B1, B2, S1, S2. split; reflexivity.
+Qed.
+
+Lemma render_no_cr : forall items, forallb item_ok items = true -> forall_s (fun c => negb (Ascii.eqb c c_cr)) (render items) = true.
+Proof.
+  induction items as [|i r IH]; intros H; cbn [render forallb] in *; [reflexivity|].
+  apply andb_true_iff in H as [H1 H2]. rewrite render_item_body, !forall_s_app.
+  destruct (item_body_props i H1) as [_ ->]. rewrite IH by assumption. reflexivity.
+Qed.
+
+Lemma keep_line_nonempty : forall c r, keep_line (String c r ++ String c_nl "")%string = true.
+Proof.
+  intros c r. unfold keep_line. cbn [append]. apply andb_true_iff. split; apply negb_true_iff; apply String.eqb_neq.
+  - discriminate.
+  - intros E. injection E as _ E. destruct r; discriminate.
+Qed.
+
+Lemma file_lines_render : forall items, forallb item_ok items = true ->
+  map strip (filter keep_line (lines (render items))) = map spell (forms_of items).
+Proof.
+  induction items as [|i r IH]; intros H; cbn [render forallb forms_of] in *; [reflexivity|].
+  apply andb_true_iff in H as [H1 H2]. rewrite render_item_body, app_assoc_s. cbn [append].
+  destruct (item_body_props i H1) as [Hnl _]. rewrite lines_line by assumption. cbn [filter].
+  destruct i as [|a f b].
+  - cbn. now apply IH.
+  - cbn [item_body item_ok] in *. apply andb_true_iff in H1 as [H1 Hf]. apply andb_true_iff in H1 as [Ha Hb].
+    pose proof (spell_nonempty f Hf) as Hne.
+    assert (Hk : keep_line ((a ++ spell f ++ b) ++ String c_nl "")%string = true).
+    { destruct (a ++ spell f ++ b)%string as [|c r'] eqn:E.
+      - exfalso. apply (f_equal is_empty) in E. rewrite !is_empty_app, Hne, andb_false_r in E. cbn in E. destruct (is_empty a); discriminate.
+      - apply keep_line_nonempty. }
+    rewrite Hk. cbn [map forms_of]. f_equal; [|now apply IH].
+    rewrite !app_assoc_s. apply strip_padded.
+    + now destruct (pad_props a Ha).
+    + rewrite forall_s_app. destruct (pad_props b Hb) as (-> & _). reflexivity.
+    + now apply spell_nosp.
+Qed.
+
+Lemma map_res_forms : forall fs d, forallb form_ok fs = true ->
+  map_res (fun t => parse_host_and_port t d) (map spell fs) = Ok (map (fun f => endpoint f d) fs).
+Proof.
+  induction fs as [|f r IH]; intros d H; cbn [map map_res forallb] in *; [reflexivity|].
+  apply andb_true_iff in H as [H1 H2]. rewrite forms_parse, IH by assumption. reflexivity.
+Qed.
+Lemma forms_of_ok : forall items, forallb item_ok items = true -> forallb form_ok (forms_of items) = true.
+Proof.
+  induction items as [|i r IH]; intros H; cbn [forallb forms_of] in *; [reflexivity|].
+  apply andb_true_iff in H as [H1 H2]. destruct i as [|a f b]; [now apply IH|].
+  cbn [item_ok] in H1. apply andb_true_iff in H1 as [_ Hf]. cbn. rewrite Hf. now apply IH.
+Qed.
+
+Lemma file_lines_items : forall items, forallb item_ok items = true -> file_lines (render items) = map spell (forms_of items).
+Proof.
+  intros items H. unfold file_lines. rewrite univ_nl_id by now apply render_no_cr. now apply file_lines_render.
+Qed.
+Lemma file_forms : forall items d, forallb item_ok items = true ->
+  file_targets (render items) d = Ok (map (fun f => endpoint f d) (forms_of items)).
+Proof.
+  intros items d H. unfold file_targets. rewrite file_lines_items by assumption.
+  apply map_res_forms. now apply forms_of_ok.
+Qed.
+
+Lemma file_whitespace_line_refuted : exists pad, pad <> "" /\ forall_s pad_char pad = true
+  /\ file_targets (pad ++ String c_nl "")%string 22 = Ok [("", 22)].
+Proof. exists " ". repeat split; try reflexivity. discriminate. Qed.
+
+(* ------------------------------------------------------------------ family preference *)
+Definition fam_is (f : Z) (e : entry) : bool := e_fam e =? f.
+Lemma insert_fam_front : forall before x l, (forall y, In y l -> before (e_fam y) (e_fam x) = false) -> insert_fam before x l = x :: l.
+Proof. intros before x [|y l] H; cbn; [reflexivity|]. rewrite H by now left. reflexivity. Qed.
+Lemma insert_fam_skip : forall before x a b, (forall y, In y a -> before (e_fam y) (e_fam x) = true) ->
+  insert_fam before x (a ++ b) = a ++ insert_fam before x b.
+Proof.
+  induction a as [|y a IH]; intros b H; cbn; [reflexivity|]. rewrite H by now left. rewrite IH; [reflexivity|].
+  intros z Hz. apply H. now right.
+Qed.
+Lemma sort_two_families : forall (before : Z -> Z -> bool) lo hi l,
+  before lo hi = true -> before lo lo = false -> before hi hi = false -> before hi lo = false -> lo <> hi ->
+  Forall (fun e => e_fam e = lo \/ e_fam e = hi) l ->
+  fold_right (insert_fam before) [] l = filter (fam_is lo) l ++ filter (fam_is hi) l.
+Proof.
+  intros before lo hi l B1 B2 B3 B4 Hne. induction l as [|x l IH]; intros H; [reflexivity|].
+  inversion H as [|? ? Hx Hl]; subst. cbn [fold_right filter]. rewrite IH by assumption.
+  destruct Hx as [Hx | Hx].
+  - assert (E1 : fam_is lo x = true) by (unfold fam_is; rewrite Hx; apply Z.eqb_refl).
+    assert (E2 : fam_is hi x = false) by (unfold fam_is; rewrite Hx; now apply Z.eqb_neq).
+    rewrite E1, E2. cbn [app].
+    apply insert_fam_front. intros y Hy. apply in_app_or in Hy. rewrite Hx.
+    destruct Hy as [Hy | Hy]; apply filter_In in Hy as [_ Hy]; unfold fam_is in Hy; apply Z.eqb_eq in Hy; rewrite Hy; assumption.
+  - assert (E1 : fam_is lo x = false) by (unfold fam_is; rewrite Hx; apply Z.eqb_neq; congruence).
+    assert (E2 : fam_is hi x = true) by (unfold fam_is; rewrite Hx; apply Z.eqb_refl).
+    rewrite E1, E2. rewrite insert_fam_skip.
+    + f_equal. apply insert_fam_front. intros y Hy. apply filter_In in Hy as [_ Hy]. unfold fam_is in Hy. apply Z.eqb_eq in Hy. rewrite Hy, Hx. assumption.
+    + intros y Hy. apply filter_In in Hy as [_ Hy]. unfold fam_is in Hy. apply Z.eqb_eq in Hy. rewrite Hy, Hx. assumption.
+Qed.
+
+Definition dual (l : list entry) : Prop := Forall (fun e => e_fam e = AF_INET \/ e_fam e = AF_INET6) l.
+Lemma family_order : forall l, dual l ->
+  order_pref [4; 6] l = filter (fam_is AF_INET) l ++ filter (fam_is AF_INET6) l
+  /\ order_pref [6; 4] l = filter (fam_is AF_INET6) l ++ filter (fam_is AF_INET) l.
+Proof.
+  intros l H. split; cbn [order_pref]; unfold sort_fam.
+  - apply sort_two_families; try reflexivity; [discriminate | assumption].
+  - apply sort_two_families; try reflexivity; [discriminate|]. eapply Forall_impl; [|exact H]. cbn. tauto.
+Qed.
+
+Lemma insert_fam_in : forall before x l e, In e (insert_fam before x l) <-> e = x \/ In e l.
+Proof.
+  induction l as [|y l IH]; intros e; cbn; [intuition congruence|].
+  destruct (before (e_fam y) (e_fam x)); cbn; [rewrite IH|]; intuition congruence.
+Qed.
+Lemma sort_fam_in : forall rv l e, In e (sort_fam rv l) <-> In e l.
+Proof.
+  intros rv l e. unfold sort_fam. induction l as [|x l IH]; cbn; [tauto|]. rewrite insert_fam_in, IH. intuition congruence.
+Qed.
+Lemma order_pref_in : forall pref l e, In e (order_pref pref l) <-> In e l.
+Proof.
+  intros pref l e. destruct pref as [|a [|b [|c t]]]; cbn [order_pref]; try tauto. apply sort_fam_in.
+Qed.
+Lemma resolve_list_in : forall pref l e, In e (resolve_list pref l) <-> In e l /\ e_type e = SOCK_STREAM.
+Proof.
+  intros. unfold resolve_list. rewrite filter_In, order_pref_in. rewrite Z.eqb_eq. tauto.
+Qed.
+
+Definition table (r : resolver) (h : string) : list entry := match assoc h r with Some l => l | None => [] end.
+Lemma gai_in : forall r h fam l e, gai r h fam = Some l -> In e l -> In e (table r h) /\ (fam = 0 \/ e_fam e = fam).
+Proof.
+  intros r h fam l e H Hin. unfold gai in H. fold (table r h) in H.
+  destruct (filter (fun e0 => (fam =? 0) || (fam =? e_fam e0)) (table r h)) eqn:E; [discriminate|].
+  injection H as <-. rewrite <- E in Hin. apply filter_In in Hin as [H1 H2]. split; [assumption|].
+  apply orb_true_iff in H2 as [H2 | H2]; apply Z.eqb_eq in H2; [now left | now right].
+Qed.
+
+(* what one audit resolves and dials *)
+Lemma audit_dials_named : forall pref r h p,
+  o_gai (audit_refused pref r h p) = [(h, p, gai_family pref)]
+  /\ (List.length (o_conn (audit_refused pref r h p)) <= 1)%nat
+  /\ forall c, In c (o_conn (audit_refused pref r h p)) ->
+       exists e, In e (table r h) /\ e_type e = SOCK_STREAM /\ (gai_family pref = 0 \/ e_fam e = gai_family pref)
+                 /\ c = (e_fam e, e_ip e, p).
+Proof.
+  intros pref r h p. unfold audit_refused. destruct (gai r h (gai_family pref)) as [l|] eqn:G.
+  - destruct (resolve_list pref l) as [|e t] eqn:R; cbn; (split; [reflexivity|]); (split; [lia|]); intros c Hc; [contradiction|].
+    destruct Hc as [<- | []]. exists e.
+    assert (Hin : In e (resolve_list pref l)) by (rewrite R; now left).
+    apply resolve_list_in in Hin as [Hin Ht]. destruct (gai_in _ _ _ _ _ G Hin) as [H1 H2]. auto.
+  - cbn. split; [reflexivity|]. split; [lia|]. intros c [].
+Qed.
+
+Lemma family_filter : forall pref r h l e, gai_family pref <> 0 ->
+  gai r h (gai_family pref) = Some l -> In e (resolve_list pref l) -> e_fam e = gai_family pref.
+Proof.
+  intros pref r h l e Hf G Hin. apply resolve_list_in in Hin as [Hin _].
+  destruct (gai_in _ _ _ _ _ G Hin) as [_ [H | H]]; [contradiction | assumption].
+Qed.
+Lemma gai_family_single : gai_family [4] = AF_INET /\ gai_family [6] = AF_INET6 /\ gai_family [] = 0 /\ gai_family [4; 6] = 0 /\ gai_family [6; 4] = 0.
+Proof. repeat split. Qed.
+
+(* the first address dialled belongs to the first-preferred family whenever the resolver offers one *)
+Lemma first_of_preferred : forall l e t, dual l -> resolve_list [4; 6] l = e :: t ->
+  (exists x, In x l /\ e_fam x = AF_INET /\ e_type x = SOCK_STREAM) -> e_fam e = AF_INET.
+Proof.
+  intros l e t Hd R (x & Hx & Hf & Ht). unfold resolve_list in R. destruct (family_order l Hd) as [E _]. rewrite E in R.
+  rewrite filter_app in R.
+  assert (Hin : In x (filter (fun e0 => e_type e0 =? SOCK_STREAM) (filter (fam_is AF_INET) l))).
+  { apply filter_In. split; [apply filter_In; split; [assumption | unfold fam_is; now apply Z.eqb_eq] | now apply Z.eqb_eq]. }
+  destruct (filter (fun e0 => e_type e0 =? SOCK_STREAM) (filter (fam_is AF_INET) l)) as [|y ys] eqn:F; [contradiction|].
+  cbn in R. injection R as <- _.
+  assert (Hy : In y (filter (fun e0 => e_type e0 =? SOCK_STREAM) (filter (fam_is AF_INET) l))) by (rewrite F; now left).
+  apply filter_In in Hy as [Hy _]. apply filter_In in Hy as [_ Hy]. unfold fam_is in Hy. now apply Z.eqb_eq in Hy.
+Qed.
+
+(* -4 / -6 / -46 / -64 *)
+Lemma flag_order_partial : pref_of_flags [] = [] /\ pref_of_flags [4] = [4] /\ pref_of_flags [6] = [6] /\ pref_of_flags [4; 6] = [4; 6].
+Proof. repeat split. Qed.
+Lemma flag_order_refuted : exists flags r h p ip4 ip6,
+  flags = [6; 4] /\ table r h = [{| e_fam := AF_INET; e_type := SOCK_STREAM; e_ip := ip4 |}; {| e_fam := AF_INET6; e_type := SOCK_STREAM; e_ip := ip6 |}]
+  /\ o_conn (audit_refused (pref_of_flags flags) r h p) = [(AF_INET, ip4, p)].
+Proof.
+  exists [6; 4], [("h", [{| e_fam := AF_INET; e_type := SOCK_STREAM; e_ip := "10.0.0.1" |}; {| e_fam := AF_INET6; e_type := SOCK_STREAM; e_ip := "fd00::1" |}])],
+    "h", 22, "10.0.0.1", "fd00::1". repeat split.
+Qed.
+
+(* connection rate test (dheat.py _resolve_hostname) against the audit (ssh_socket.py _resolve) *)
+Lemma rate_test_partial : forall pref l, List.length pref <> 2%nat -> rate_first l = hd_error (resolve_list pref l).
+Proof.
+  intros pref l H. unfold rate_first, resolve_list. destruct pref as [|a [|b [|c t]]]; cbn [order_pref]; try reflexivity.
+  cbn in H. contradiction.
+Qed.
+Lemma rate_test_order_refuted : exists pref l, pref = [4; 6] /\ dual l /\ rate_first l <> hd_error (resolve_list pref l).
+Proof.
+  exists [4; 6], [{| e_fam := AF_INET6; e_type := SOCK_STREAM; e_ip := "fd00::1" |}; {| e_fam := AF_INET; e_type := SOCK_STREAM; e_ip := "10.0.0.1" |}].
+  split; [reflexivity|]. split; [repeat constructor; cbn; tauto|]. vm_compute. discriminate.
+Qed.
+
+(* ------------------------------------------------------------------ labels *)
+Lemma break_at_app : forall c s a b, break_at c s = (a, b) -> s = (a ++ b)%string.
+Proof.
+  induction s as [|d s IH]; intros a b H; cbn in H.
+  - injection H as <- <-. reflexivity.
+  - destruct (Ascii.eqb d c).
+    + injection H as <- <-. reflexivity.
+    + destruct (break_at c s) as [a' b'] eqn:E. injection H as <- <-. cbn. f_equal. now apply IH.
+Qed.
+Lemma v6_addr_colons : forall a, v6_addr_ok a = true -> (2 <= count_c c_colon a)%nat.
+Proof.
+  intros a H. unfold v6_addr_ok in H. destruct (is_empty a); [discriminate|].
+  destruct (Nat.ltb_spec (List.length (split_on c_colon a)) 3); [discriminate|].
+  rewrite split_on_length in *. lia.
+Qed.
+Lemma is_ipv6_colons : forall s, is_ipv6 s = true -> (2 <= count_c c_colon s)%nat.
+Proof.
+  intros s H. unfold is_ipv6 in H. destruct (has_c "/" s); [discriminate|].
+  destruct (break_at "%" s) as [addr rest] eqn:E. apply break_at_app in E. subst s. rewrite count_c_app.
+  assert (Ha : v6_addr_ok addr = true).
+  { destruct rest as [|c scope]; [assumption|]. destruct (is_empty scope || has_c "%" scope); [discriminate | assumption]. }
+  apply v6_addr_colons in Ha. lia.
+Qed.
+Lemma name_not_ipv6 : forall h, name_ok h = true -> is_ipv6 h = false.
+Proof.
+  intros h H. destruct (is_ipv6 h) eqn:E; [|reflexivity]. apply is_ipv6_colons in E.
+  unfold name_ok in H. apply andb_true_iff in H as [_ H]. apply Nat.eqb_eq in H. lia.
+Qed.
+Lemma port_ok_range : forall p, port_ok p = true -> 1 <= p <= 65535.
+Proof. intros p H. unfold port_ok in H. apply andb_true_iff in H as [H1 H2]. apply Z.leb_le in H1, H2. lia. Qed.
+
+Lemma text_label_name : forall h p, name_ok h = true -> port_ok p = true -> parse_host_and_port (text_label h p) 22 = Ok (h, p).
+Proof.
+  intros h p Hh Hp. apply port_ok_range in Hp. unfold text_label. destruct (Z.eqb_spec p 22) as [-> | Hne].
+  - apply (forms_parse (FHost h) 22 Hh).
+  - rewrite name_not_ipv6 by assumption. apply parse_host_port; [assumption | lia].
+Qed.
+Lemma text_label_v6 : forall a p, is_ipv6 a = true -> forall_s host_char a = true -> port_ok p = true ->
+  parse_host_and_port (text_label a p) 22 = Ok (a, p).
+Proof.
+  intros a p Ha Hc Hp. apply port_ok_range in Hp.
+  assert (Hv : v6_ok a = true). { unfold v6_ok. rewrite Hc. apply is_ipv6_colons in Ha. apply Nat.leb_le in Ha. now rewrite Ha. }
+  unfold text_label. destruct (Z.eqb_spec p 22) as [-> | Hne].
+  - apply (forms_parse (FV6 a) 22 Hv).
+  - rewrite Ha. apply parse_bracket_port; [assumption | lia].
+Qed.
+Lemma json_label_name : forall h p d, name_ok h = true -> port_ok p = true -> parse_host_and_port (json_label h p) d = Ok (h, p).
+Proof. intros h p d Hh Hp. apply port_ok_range in Hp. apply parse_host_port; [assumption | lia]. Qed.
+Lemma json_label_v6_refuted : exists a p, is_ipv6 a = true /\ forall_s host_char a = true /\ port_ok p = true
+  /\ parse_host_and_port (json_label a p) 22 <> Ok (a, p).
+Proof. exists "::1", 22. repeat split; try reflexivity. vm_compute. discriminate. Qed.
+
+(* ------------------------------------------------------------------ whole runs *)
+Lemma audit_ports : forall pref r h p,
+  (forall g, In g (o_gai (audit_refused pref r h p)) -> snd (fst g) = p)
+  /\ (forall c, In c (o_conn (audit_refused pref r h p)) -> snd c = p).
+Proof.
+  intros. destruct (audit_dials_named pref r h p) as (Hg & _ & Hc). split.
+  - intros g Hin. rewrite Hg in Hin. destruct Hin as [<- | []]. reflexivity.
+  - intros c Hin. destruct (Hc c Hin) as (e & _ & _ & _ & ->). reflexivity.
+Qed.
+Definition ports_valid (o : obs) : Prop :=
+  (forall g, In g (o_gai o) -> port_ok (snd (fst g)) = true) /\ (forall c, In c (o_conn o) -> port_ok (snd c) = true).
+Lemma audit_ports_valid : forall pref r h p, port_ok p = true -> ports_valid (audit_refused pref r h p).
+Proof.
+  intros pref r h p Hp. destruct (audit_ports pref r h p) as [Hg Hc]. split.
+  - intros g Hin. now rewrite (Hg g Hin).
+  - intros c Hin. now rewrite (Hc c Hin).
+Qed.
+
+Lemma run_single_ports : forall arg oport flags r o, In o (obs_of (run_single arg oport flags r)) -> ports_valid o.
+Proof.
+  intros arg oport flags r o. unfold run_single. destruct (cli_single arg oport) as [| e | h p] eqn:E; cbn; try tauto.
+  intros [<- | []]. apply audit_ports_valid. eapply cli_single_port_ok. exact E.
+Qed.
+Lemma run_single_bad_option : forall arg P flags r, port_ok P = false -> run_single arg (Some P) flags r = RExit.
+Proof. intros. unfold run_single. now rewrite cli_bad_port_option. Qed.
+Lemma run_single_bad_named : forall f flags r, form_ok f = true -> port_ok (form_port f 22) = false ->
+  run_single (spell f) None flags r = RCrash [].
+Proof. intros. unfold run_single. now rewrite cli_bad_port_named. Qed.
+Lemma run_single_named : forall f flags r, form_ok f = true -> port_ok (form_port f 22) = true ->
+  run_single (spell f) None flags r = RDone [audit_refused (pref_of_flags flags) r (form_host f) (form_port f 22)].
+Proof. intros. unfold run_single. now rewrite cli_forms_no_port_option. Qed.
+
+Lemma run_file_ports : forall content oport flags r o, In o (obs_of (run_file content oport flags r)) -> ports_valid o.
+Proof.
+  intros content oport flags r o. unfold run_file.
+  destruct (match oport with Some p => if port_ok p then Some p else None | None => Some 22 end) as [d|] eqn:D; [|cbn; tauto].
+  assert (Hd : port_ok d = true).
+  { destruct oport as [p|]; [destruct (port_ok p) eqn:E; [injection D as <-; assumption | discriminate] | injection D as <-; reflexivity]. }
+  destruct (file_lines content) as [|t0 ts0].
+  - cbn. intros [<- | []]. now apply audit_ports_valid.
+  - destruct (file_targets content d) as [ts|]; [|cbn; tauto].
+    assert (H : In o (map (fun t => audit_refused (pref_of_flags flags) r (fst t) (snd t)) (filter (fun t => port_ok (snd t)) ts)) -> ports_valid o).
+    { intros Hin. apply in_map_iff in Hin as (t & <- & Ht). apply filter_In in Ht as [_ Ht]. now apply audit_ports_valid. }
+    destruct (forallb (fun t => port_ok (snd t)) ts); cbn; exact H.
+Qed.
+Lemma run_file_bad_option : forall content P flags r, port_ok P = false -> run_file content (Some P) flags r = RExit.
+Proof. intros. unfold run_file. now rewrite H. Qed.
+
+Lemma filter_all : forall {A} (q : A -> bool) l, forallb q l = true -> filter q l = l.
+Proof.
+  induction l as [|x l IH]; intros H; cbn in *; [reflexivity|]. apply andb_true_iff in H as [H1 H2]. rewrite H1, IH by assumption. reflexivity.
+Qed.
+(* a file of documented spellings whose ports are all valid: every target is audited, in order, and reported *)
+Lemma run_file_forms : forall items flags r, forallb item_ok items = true -> forms_of items <> [] ->
+  forallb (fun f => port_ok (form_port f 22)) (forms_of items) = true ->
+  run_file (render items) None flags r
+  = RDone (map (fun f => audit_refused (pref_of_flags flags) r (form_host f) (form_port f 22)) (forms_of items)).
+Proof.
+  intros items flags r Hok Hne Hp. unfold run_file. rewrite file_lines_items, file_forms by assumption.
+  destruct (forms_of items) as [|f fs] eqn:E; [contradiction|]. rewrite <- E in *. clear E.
+  destruct (map spell (forms_of items)) eqn:E2; [destruct (forms_of items); [contradiction | discriminate]|]. clear E2.
+  assert (Hall : forallb (fun t : string * Z => port_ok (snd t)) (map (fun f => endpoint f 22) (forms_of items)) = true).
+  { rewrite forallb_forall in *. intros t Ht. apply in_map_iff in Ht as (g & <- & Hg). cbn. now apply Hp. }
+  rewrite Hall, filter_all by assumption. rewrite map_map. reflexivity.
+Qed.
+(* recorded finding: one out-of-range port in the file aborts the run after the other targets were dialled *)
+Lemma run_file_bad_port_refuted : exists content r o,
+  run_file content None [] r = RCrash [o] /\ o_conn o <> [] /\ file_targets content 22 = Ok [("a", 22); ("b", 70000)].
+Proof.
+  exists (bs [97; 10; 98; 58; 55; 48; 48; 48; 48; 10]%nat), [("a", [{| e_fam := AF_INET; e_type := SOCK_STREAM; e_ip := "10.0.0.1" |}])].
+  eexists. split; [vm_compute; reflexivity|]. split; [discriminate | reflexivity].
+Qed.
+(* recorded finding: a file without any target audits the host '' *)
+Lemma run_file_no_target_refuted : exists content r, file_lines content = [] /\ run_file content None [] r = RDone [audit_refused [] r "" 22].
+Proof. exists (String c_nl ""), []. split; reflexivity. Qed.
